@@ -16,6 +16,10 @@ CLAIMS = {
     text='Lean 4 theorem roundtrip_struct (reader after writer = identity and consumes all text, for every struct type and every well-typed unambiguous value, with the text primitives proved rather than assumed) and the percent-encoding round trip; tied to the code by a differential run of the real to_string / from_bytes / QueryParams::iter against the writer and reader models, and of decoded texts against an independent RFC 3986 pair reader',
     note=TB + 'modelled not verified: serde derive visitor protocol, str::parse, from_utf8, percent_encoding (hand models; PrimsOK proved for them); floats outside the catalogue; known finding KF-C09-empty-ambiguity',
     technique='Lean 4 proof (round trip by induction over fields/values) + model/implementation correspondence'),
+ 'C12': dict(
+    text='Lean 4 theorems over the model of JWT::verified with HMAC, JSON and the clock as parameters (admit_sound: the handler runs only for a three-part token whose signature is the MAC of header.payload under the configured key and algorithm, whose header names the algorithm and whose claims admit now, and sees the signed payload; refused_otherwise: every other outcome is a 4xx/5xx status without running the inside); differential run of an application behind the real fang with a pinned clock (hook H5) against the model and against an admission predicate written with Python hmac/json; tokens from the real issue must verify',
+    note=TB + 'parameters, not verified: HMAC-SHA2 (values from Python hmac), serde_json (values from Python json on the same bytes), base64 URL_SAFE_NO_PAD engine (concrete Lean model, validated by the run)',
+    technique='Lean 4 proof (decision logic, parametric in MAC/JSON/clock) + model/implementation correspondence'),
  'C13': dict(
     text='Lean 4 theorem admit_iff (handler runs iff the Authorization value is "Basic " + canonical base64 of user:password of a configured pair) with the base64 round trip and canonicity proved; differential run of an application guarded by the real fang (single and array forms) against the model and against Python base64',
     note=TB + 'modelled not verified: base64 0.22 STANDARD engine (hand model, canonical decoding; validated against Python base64 and the crate), from_utf8',
